@@ -70,6 +70,19 @@ def scores_json(sc, inv=None):
     return sorted([[(inv[c] if inv else c), rat(v)] for c, v in (sc or {}).items()])
 
 
+def _tiebreaks_json(tb, inv=None):
+    """a recorded tiebreak is {frozenset of candidates: tuple of frozensets}; anything else is projected onto a sentinel that no
+    specification step produces (so the trace is rejected with clause Tiebreak instead of breaking the recorder)"""
+    out = []
+    for k, v in (tb or {}).items():
+        try:
+            out.append({"tied": sorted((inv[c] if inv else c) for c in k), "order": groups(v, inv)})
+            assert all(isinstance(x, str) for x in out[-1]["tied"])
+        except Exception:
+            out.append({"tied": ["<malformed tiebreak key>"], "order": []})
+    return sorted(out, key=lambda t: t["tied"])
+
+
 def state_json(st, prof, thr=-1, p=None, inv=None):
     return {
         "ev": "Round",
@@ -77,10 +90,7 @@ def state_json(st, prof, thr=-1, p=None, inv=None):
         "eliminated": groups(st.eliminated, inv),
         "remaining": groups(st.remaining, inv),
         "scores": scores_json(st.scores, inv),
-        "tiebreaks": sorted(
-            [{"tied": sorted((inv[c] if inv else c) for c in k), "order": groups(v, inv)} for k, v in st.tiebreaks.items()],
-            key=lambda t: t["tied"],
-        ),
+        "tiebreaks": _tiebreaks_json(st.tiebreaks, inv),
         "bag": bag_json(prof, inv) if prof is not None else [],
         "bagknown": prof is not None,
         "thr": int(thr),
